@@ -2,6 +2,7 @@
 from typing import List
 
 from twisted.internet.base import ReactorBase
+from twisted.logger import globalLogPublisher
 
 from vlib import api
 from vlib.api import H, cover
@@ -16,7 +17,8 @@ P = 3       # external logical producers 0..2; producer id 3 is the reactor thre
 BOUNDS_TEXT = ("every sequentially-consistent interleaving of total length <= len of: producer p (of 3) issues "
                "its next numbered callFromThread; the reactor runs one runUntilCurrent; plus at most one event "
                "placed INSIDE a drain: while the dk-th executed call runs, producer dq issues its next call or "
-               "(dq == 3) the running call itself calls callFromThread; that call may also raise.  Producers "
+               "(dq == 3) the running call itself calls callFromThread; that call may also raise (logged, and "
+               "the drain goes on).  Producers "
                "are named in order of first appearance (they are interchangeable).  Each history is followed "
                "by two more iterations to flush the queue")
 OUTSIDE = ["real threads and OS scheduling; GIL-atomicity of list.append and of the list iterator in the "
@@ -87,6 +89,7 @@ class _Q:
         self.expw = 0           # wake-ups that must have been requested so far
         self.dk, self.dq, self.dr = dk, dq, dr
         self.ok = True
+        self.nraised = 0
 
     def append(self, p):
         j = self.nextseq[p]
@@ -107,11 +110,24 @@ class _Q:
         if idx == self.dk:
             self.append(self.dq)
             if self.dr:
+                self.nraised += 1
                 raise _Boom()
 
     def iterate(self):
         self.it += 1
-        self.R.runUntilCurrent()
+        errs = []
+
+        def _obs(event):
+            if event.get("log_failure") is not None:
+                errs.append(1)
+        r0 = self.nraised
+        globalLogPublisher.addObserver(_obs)
+        try:
+            self.R.runUntilCurrent()
+        finally:
+            globalLogPublisher.removeObserver(_obs)
+        if len(errs) != self.nraised - r0:
+            self.ok = False     # exactly the exceptions raised by the calls are logged, nothing else
         if self.pending:
             self.expw += 1      # calls were left behind by the drain: the reactor must not go to sleep
 
@@ -195,7 +211,8 @@ def _shards(tier):
     if tier == "quick":
         out = [("dk == -1", "len(ev) == %d" % n), ("dk == -1", "len(ev) < %d" % n),
                ("dk >= 0", "len(ev) < %d" % (n - 1), "dq < 2"), ("dk >= 0", "len(ev) < %d" % (n - 1), "dq >= 2")]
-        out += [("dk == %d" % k, "len(ev) == %d" % (n - 1), q) for k in range(n - 1) for q in ("dq < 2", "dq >= 2")]
+        out += [("dk == %d" % k, "len(ev) == %d" % (n - 1), q) for k in range(n - 1)
+                for q in (("dq < 2", "dq >= 2") if k >= 2 else ("dq == 0", "dq == 1", "dq == 2", "dq == 3"))]
         return out
     # thorough: shard preconditions are evaluated after the harness's own, so only splits on dk/dq/dr
     # (decided before the events are enumerated) reduce the work of a shard
